@@ -33,12 +33,34 @@ func init() {
 
 var c20Seq int
 
+// c20Send is client.SendNodePoints / SendEdgePoints with acknowledgement, except that it waits 8 s for the answer
+// instead of 1 s: on a busy machine a slow answer must not be mistaken for a missing one.
+func c20Send(nc *nats.Conn, subject string, pts data.Points) error {
+	b, err := pts.ToPb()
+	if err != nil {
+		return err
+	}
+	msg, err := nc.Request(subject, b, 8*time.Second)
+	if err != nil {
+		return err
+	}
+	if len(msg.Data) > 0 {
+		return fmt.Errorf("%s", string(msg.Data))
+	}
+	return nil
+}
+
 func c20Run(c string) string {
 	var W, R, N int
 	var seed int64
 	if _, err := fmt.Sscanf(strings.Fields(c)[0], "w%dr%dn%ds%d", &W, &R, &N, &seed); err != nil {
 		panic("C20: bad case " + c)
 	}
+	// "...x": the instance is stopped in the MIDDLE of the load (requests in flight): Stop must still return, every write
+	// acknowledged before or during the shutdown must be in the re-opened file, and nothing may be torn
+	stopMid := strings.HasSuffix(strings.Fields(c)[0], "x")
+	var stopping int32
+	var stopAt int64
 	srv, err := busStart("R", "", nil)
 	if err != nil {
 		return "SETUP " + err.Error()
@@ -72,7 +94,9 @@ func c20Run(c string) string {
 		if err != nil {
 			panic(err)
 		}
+		mu.Lock()
 		conns = append(conns, nc)
+		mu.Unlock()
 		return nc
 	}
 	for w := 0; w < W; w++ {
@@ -92,11 +116,11 @@ func c20Run(c string) string {
 					var err error
 					switch r.Intn(3) {
 					case 0:
-						err = client.SendNodePoints(nc, pl.id, data.Points{{Type: "v", Key: key, Value: math.NaN(), Time: time.Unix(0, tm)}}, true)
+						err = c20Send(nc, "p."+pl.id, data.Points{{Type: "v", Key: key, Value: math.NaN(), Time: time.Unix(0, tm)}})
 					case 1:
-						err = client.SendEdgePoints(nc, pl.id, pl.id, data.Points{{Type: data.PointTypeNodeType, Text: "device", Time: time.Unix(0, tm)}}, true)
+						err = c20Send(nc, "p."+pl.id+"."+pl.id, data.Points{{Type: data.PointTypeNodeType, Text: "device", Time: time.Unix(0, tm)}})
 					default:
-						err = client.SendEdgePoints(nc, "G", "c", data.Points{{Type: data.PointTypeTombstone, Time: time.Unix(0, tm)}, {Type: data.PointTypeNodeType, Text: "device", Time: time.Unix(0, tm)}}, true)
+						err = c20Send(nc, "p.G.c", data.Points{{Type: data.PointTypeTombstone, Time: time.Unix(0, tm)}, {Type: data.PointTypeNodeType, Text: "device", Time: time.Unix(0, tm)}})
 					}
 					resp := tick()
 					st := "accepted"
@@ -105,6 +129,9 @@ func c20Run(c string) string {
 						if strings.Contains(err.Error(), "timeout") {
 							st = "timeout"
 						}
+					}
+					if st != "refused" && atomic.LoadInt32(&stopping) == 1 {
+						return
 					}
 					add(fmt.Sprintf("X,%d,%d,%d,%s", inv, resp, w, st))
 					continue
@@ -115,16 +142,19 @@ func c20Run(c string) string {
 				if r.Intn(8) == 0 {
 					kind = "e"
 					key = "0"
-					err = client.SendEdgePoints(nc, pl.id, pl.parent, data.Points{{Type: "role", Value: float64(w), Time: time.Unix(0, tm)}}, true)
+					err = c20Send(nc, "p."+pl.id+"."+pl.parent, data.Points{{Type: "role", Value: float64(w), Time: time.Unix(0, tm)}})
 				} else {
-					err = client.SendNodePoints(nc, pl.id, data.Points{{Type: "v", Key: key, Value: float64(i), Text: fmt.Sprint(w), Time: time.Unix(0, tm)}}, true)
+					err = c20Send(nc, "p."+pl.id, data.Points{{Type: "v", Key: key, Value: float64(i), Text: fmt.Sprint(w), Time: time.Unix(0, tm)}})
 				}
 				resp := tick()
 				st := "ok"
 				if err != nil {
-					st = "err"
+					st = "err:" + strings.NewReplacer(" ", "_", ",", "_", ";", "_", "#", "_").Replace(err.Error())
 				}
 				add(fmt.Sprintf("W,%d,%d,%d,%s,%s,%s,%d,%s", inv, resp, w, pl.id, kind, key, tm, st))
+				if err != nil && atomic.LoadInt32(&stopping) == 1 {
+					return // the instance is going down: this writer gives up
+				}
 			}
 		}(w)
 	}
@@ -139,6 +169,9 @@ func c20Run(c string) string {
 				inv := tick()
 				nodes, err := client.GetNodes(nc, pl.parent, pl.id, "", false)
 				resp := tick()
+				if (err != nil || len(nodes) != 1) && atomic.LoadInt32(&stopping) == 1 {
+					return
+				}
 				if err != nil || len(nodes) != 1 {
 					why := fmt.Sprintf("count=%d", len(nodes))
 					if err != nil {
@@ -174,10 +207,42 @@ func c20Run(c string) string {
 			if err != nil {
 				st = "err"
 			}
+			if err != nil && atomic.LoadInt32(&stopping) == 1 {
+				return
+			}
 			add(fmt.Sprintf("V,%d,%d,%s", inv, resp, st))
 			time.Sleep(time.Millisecond)
 		}
 	}()
+	midStop := make(chan string, 1)
+	if stopMid {
+		go func() {
+			target := (W + R) * N / 3
+			for {
+				mu.Lock()
+				n := len(events)
+				mu.Unlock()
+				if n >= target {
+					break
+				}
+				time.Sleep(200 * time.Microsecond)
+			}
+			atomic.StoreInt64(&stopAt, tick())
+			atomic.StoreInt32(&stopping, 1)
+			res := "hang"
+			if srv.haltWithin(20 * time.Second) {
+				res = "returned"
+			}
+			// requests still waiting for an answer would sit out their time-outs (admin.storeVerify: 20 s)
+			mu.Lock()
+			cs := append([]*nats.Conn(nil), conns...)
+			mu.Unlock()
+			for _, nc := range cs {
+				nc.Close()
+			}
+			midStop <- res
+		}()
+	}
 	done := make(chan struct{})
 	go func() { wg.Wait(); close(done) }()
 	select {
@@ -193,7 +258,13 @@ func c20Run(c string) string {
 	}
 	// stop: Server.Run must return, and the file must open again
 	stopRes := "returned"
-	if !srv.haltWithin(20 * time.Second) {
+	if stopMid {
+		select {
+		case stopRes = <-midStop:
+		case <-time.After(25 * time.Second):
+			stopRes = "hang"
+		}
+	} else if !srv.haltWithin(20 * time.Second) {
 		stopRes = "hang"
 	}
 	stopped = true
@@ -203,7 +274,17 @@ func c20Run(c string) string {
 	if err != nil {
 		reopen = "err"
 	} else {
+		// Server.Run can return while the handler of the last request is still inside its transaction (Close does not
+		// wait for it); the dump reads three tables one after the other, so take it until it is stable
 		final = storeDump(db)
+		for i := 0; i < 10; i++ {
+			time.Sleep(20 * time.Millisecond)
+			again := storeDump(db)
+			if again == final {
+				break
+			}
+			final = again
+		}
 		db.Close()
 	}
 	for _, suf := range []string{"", "-wal", "-shm"} {
@@ -218,6 +299,9 @@ func c20Run(c string) string {
 	})
 	h := strings.Join(events, ";")
 	mu.Unlock()
+	if stopMid {
+		return "H=" + h + " ## final=" + final + " ## stop=" + stopRes + " reopen=" + reopen + fmt.Sprintf(" stopAt=%d", atomic.LoadInt64(&stopAt))
+	}
 	return "H=" + h + " ## final=" + final + " ## stop=" + stopRes + " reopen=" + reopen
 }
 
@@ -228,7 +312,11 @@ func removeFile(p string) error { return os.Remove(p) }
 func c20Gen(r *rand.Rand, n int, tier string) []string {
 	var out []string
 	for i := 0; i < n; i++ {
-		out = append(out, fmt.Sprintf("w%dr%dn%ds%d", 1+r.Intn(6), 1+r.Intn(5), 10+r.Intn(50), r.Intn(1000000)))
+		c := fmt.Sprintf("w%dr%dn%ds%d", 1+r.Intn(6), 1+r.Intn(5), 10+r.Intn(50), r.Intn(1000000))
+		if i%5 == 4 {
+			c += "x" // stopped in the middle of the load
+		}
+		out = append(out, c)
 	}
 	return out
 }
